@@ -154,8 +154,8 @@ def sessions(ctx):
         # the mechanisms the law forbids must be rejected by the session law inside TLC
         for m in ('tag', 'alias', 'pop', 'keys'):
             ctx.mc('MC_RegroupS', 'MC_RegroupS_%s.cfg' % m, must_fail='StepLaw', coverage=False)
-        gens = [('MC_RegroupS_genq.cfg', {}, 4000), ('MC_RegroupS_genw.cfg', {}, 9000),
-                ('MC_RegroupS_sim.cfg', dict(simulate=200, depth=7, seed=ctx.seed + 1, workers=1), 5000)]
+        gens = [('MC_RegroupS_genq.cfg', {}, 4000), ('MC_RegroupS_genw.cfg', {}, 6000),
+                ('MC_RegroupS_sim.cfg', dict(simulate=200, depth=7, seed=ctx.seed + 1, workers=1), 4000)]
     obs = []
     for g, kw, cap in gens:
         cases = ctx.generate('MC_RegroupS', g, **kw)
